@@ -38,6 +38,8 @@ OBLIGATIONS = [
      "statement": "a waiting caller whose shutdown number is <= _shutdownCompleteEpoch returns at its next step (logs 7), also when _shutdown has been cleared by a restart meanwhile"},
     {"id": "C09_E1", "theorem": "Iora.C09.spawn_failure_refused_or_has_worker", "kind": "proved",
      "statement": "thread creation fails after the push (fixes/FC09e, function-level model spawnFailed): refused -> the queue is what it was before the push and the task is not in it; accepted -> the task is queued and _threads is non-empty"},
+    {"id": "C09_E2", "theorem": "Iora.C09.spawn_failure_accepted_has_live_worker", "kind": "proved",
+     "statement": "every schedule, every reachable state with _shutdown false: thread creation fails after the push and the call is accepted -> some entry of _threads is a worker THREAD that has neither removed itself nor returned (a live worker, not merely a non-empty map; mode != DETACHED, no restart)"},
     {"id": "C09_P5a", "theorem": "Iora.C09.P5_exit_decision_with_empty_queue", "kind": "proved",
      "statement": "a worker enters its exit path only in a critical section in which the queue is empty"},
     {"id": "C09_P5a2", "theorem": "Iora.C09.P5_exit_decision_after_wait", "kind": "proved",
@@ -60,7 +62,7 @@ OBLIGATIONS = [
      "statement": "enqueueImpl: push, spawn decision and spawn inside one critical section, notify after unlock (Gen/TpSkel)"},
     {"id": "C09_SK2", "theorem": "Iora.C09.skel_tryEnqueueImpl", "kind": "conformance", "statement": "the same for tryEnqueueImpl"},
     {"id": "C09_SK3", "theorem": "Iora.C09.skel_spawn", "kind": "conformance",
-     "statement": "spawnWorkerLocked = create + register with no lock operation between; spawnWorker = lock / spawnWorkerLocked / unlock; discardNewestTaskLocked (fixes/FC09e) only touches _tasks"},
+     "statement": "spawnWorkerLocked = create + register with no lock operation between; spawnWorker = lock / spawnWorkerLocked / unlock; discardNewestTaskLocked (fixes/FC09e) only touches _tasks; the ONLY insertion into _threads is emplace(t.get_id(), std::move(t)) of the std::thread t constructed just before (no placeholder entry: seed C09-e)"},
     {"id": "C09_SK4", "theorem": "Iora.C09.skel_worker", "kind": "conformance",
      "statement": "worker loop: wait, both exit decisions and pop in one critical section; every return under _mutex"},
     {"id": "C09_SK5", "theorem": "Iora.C09.skel_worker_hooks", "kind": "conformance", "statement": "only hook in the worker: tp:popped (or none)"},
@@ -675,13 +677,24 @@ def run(ctx: Ctx):
 def spawn_failures(ctx, rng, stats):
     """fixes/FC09e: the real pool with pthread_create interposed (harness/c09_tp_spawnfail.cpp): chosen thread creations fail with
     EAGAIN.  Monitors (implementation only): a refused submission (exception / false) never runs; an accepted one has run exactly
-    once when stop() has returned ok and its future holds the value; tryEnqueue never throws; nothing is refused when no creation
-    failed (queue bound never reached by construction)."""
+    once and its future holds the value once the pool has been stopped AND destroyed (judged whether or not stop() returned ok: a
+    pool without a worker cannot stop); a submission made while NO worker is alive and whose own thread creation failed must be
+    refused (seed C09-e: a placeholder left in _threads made the pool accept it); a submission is refused only when its own
+    creation failed and no worker was alive (queue bound never reached by construction); tryEnqueue never throws."""
     hb = ctx.build_harness("harness/c09_tp_spawnfail.cpp", sanitize=False)
     if not hb:
         return
-    cases = ["case 1 4 8 1 1 45 e,r,t,e", "case 0 2 8 0 1 0 e,r", "case 0 2 8 0 2 0 t,r,e"]     # corpus/C09/FC09e-*.json
-    n = 24 if ctx.tier == "quick" else 300
+    cases = ["case 1 4 8 1 1 45 e,r,t,e", "case 0 2 8 0 1 0 e,r", "case 0 2 8 0 2 0 t,r,e",     # corpus/C09/FC09e-*.json
+             "case 0 1 8 0 1 0 e", "case 0 1 8 0 1 0 r,t"]                                      # corpus/C09/C09e-*.json
+    # family `noworker` (drawn in EVERY run): no worker exists and no later creation rescues an orphaned task - every creation
+    # fails (failFrom 0, failCount 99), or only the first fails and max = 1 (whatever the failed attempt left behind in _threads
+    # would use up the only slot for good)
+    for _ in range(6 if ctx.tier == "quick" else 40):
+        mx = rng.choice([1, 1, 2, 3])
+        cnt = rng.choice([99, 99, 1]) if mx == 1 else 99
+        cases.append("case 0 %d 8 0 %d 0 %s" % (mx, cnt, ",".join(rng.choice("etr") for _ in range(rng.range(1, 4)))))
+    stats["spawnfail_noworker_cases"] = len(cases) - 3
+    n = 32 if ctx.tier == "quick" else 340
     while len(cases) < n:
         init = rng.choice([0, 0, 1, 1, 2])
         mx = max(1, init) + rng.choice([0, 1, 2, 3])
@@ -704,21 +717,28 @@ def spawn_failures(ctx, rng, stats):
             stats["spawnfail_ctor_threw"] = stats.get("spawnfail_ctor_threw", 0) + 1      # the constructor itself could not start its workers
             continue
         for tok in head.split()[1:]:
-            i, mode, res, ran, fut = tok.split(":")
-            ran = int(ran)
+            i, mode, res, ran, fut, live, fd = tok.split(":")
+            ran, live, fd = int(ran), int(live), int(fd)
+            if live == 0 and fd > 0:
+                stats["spawnfail_no_worker_and_creation_failed"] = stats.get("spawnfail_no_worker_and_creation_failed", 0) + 1
+                if res not in "xf":
+                    fails.append("P2: submission %s was ACCEPTED although no worker was alive and the thread creation for it failed "
+                                 "(nobody can run it); it ran %d time(s), future `%s`" % (i, ran, fut))
             if res in "xf":
                 stats["spawnfail_refused"] = stats.get("spawnfail_refused", 0) + 1
                 if ran != 0:
                     fails.append("P1: submission %s was refused (%s) after a failed thread creation and its task ran %d time(s)"
                                  % (i, "exception" if res == "x" else "false", ran))
-                if int(kv["failed"]) == 0:
-                    fails.append("P4: submission %s refused although no thread creation failed, the pool was accepting and the queue not full" % i)
+                if fd == 0 or live > 0:
+                    fails.append("P4: submission %s refused although %s, the pool was accepting and the queue not full"
+                                 % (i, "no thread creation failed" if fd == 0 else "%d worker(s) were alive" % live))
             else:
                 stats["spawnfail_accepted"] = stats.get("spawnfail_accepted", 0) + 1
-                if kv["stop"] == "1" and ran != 1:
-                    fails.append("P2: accepted submission %s ran %d time(s) by the time stop() returned ok" % (i, ran))
-                if mode == "r" and kv["stop"] == "1" and fut != "v":
-                    fails.append("P4: future of accepted submission %s is `%s` after stop()" % (i, fut))
+                if ran != 1:
+                    fails.append("P2: accepted submission %s ran %d time(s) by the time the pool had been stopped (stop ok=%s) and destroyed"
+                                 % (i, ran, kv["stop"]))
+                if mode == "r" and fut != "v":
+                    fails.append("P4: future of accepted submission %s is `%s` after the pool was stopped and destroyed" % (i, fut))
             if mode == "t" and res == "x":
                 fails.append("P4: tryEnqueue threw instead of returning false (submission %s)" % i)
         ctx.count_case("spawnfail " + c + " " + l, nontrivial=int(kv.get("failed", 0)) > 0)
